@@ -14,6 +14,7 @@ Section EcdsaSpec.
   Variable n : Z.
   Variable coords : pt -> option (Z * Z).
   Variable lift_x : Z -> option (pt * pt).
+  Variable x_canon : Z -> Prop.      (* "x is a reduced field element" (0 <= x < p on a concrete curve) *)
 
   (* (pt, add, neg, O) is an abelian group; smul is its Z-action; every element is killed by n
      (a group of order n); coords gives affine coordinates, None exactly for... (only O -> None is used);
@@ -32,9 +33,11 @@ Section EcdsaSpec.
     gl_coords_neg : forall P x y, coords P = Some (x, y) -> exists y', coords (neg P) = Some (x, y')
   }.
 
-  (* lift_x x = the two points of abscissa x, the one with even ordinate first (points_for_x) *)
+  (* lift_x x = the two points of abscissa x, the one with even ordinate first (points_for_x).
+     pycoin computes with x modulo p, so for an x that is not a reduced field element the points
+     returned have abscissa x mod p, not x: soundness is only claimed for canonical x. *)
   Record lift_laws : Prop := {
-    ll_sound    : forall x P0 P1, lift_x x = Some (P0, P1) ->
+    ll_sound    : forall x P0 P1, lift_x x = Some (P0, P1) -> x_canon x ->
                   (exists y0, coords P0 = Some (x, y0) /\ Z.odd y0 = false) /\
                   (exists y1, coords P1 = Some (x, y1) /\ Z.odd y1 = true);
     ll_complete : forall P x y, coords P = Some (x, y) ->
